@@ -72,7 +72,7 @@ def _leaf_chunk(args):
     for roles in strings:
         txt = render(roles, ecs)
         e = {"k": "leaf", "cls": name, "v": v, "fam": fam, "ec": ec_list(ecs, fam, trunc), "in": cps(txt), "out": [], "out2": [],
-             "roles": "".join(r[-1] for r in roles)}
+             "roles": "".join(r[-1] for r in roles), "hl": False}
         try:
             o = cls(txt).to_er7(ecd)
             e["out"] = cps(o)
@@ -81,10 +81,25 @@ def _leaf_chunk(args):
         except Exception as ex:
             e["outcome"] = exc_name(ex)
         out.append(e)
+        # the same text with a highlighted range (the \\H\\ .. \\N\\ markers are added by the library): every 11th text
+        if len(txt) >= 2 and (len(out) % 11 == 0):
+            a = len(txt) // 3
+            b = max(a + 1, (2 * len(txt)) // 3)
+            e2 = dict(e)
+            e2.update({"hl": True, "out": [], "out2": []})
+            try:
+                o = cls(txt, highlights=((a, b),)).to_er7(ecd)
+                e2["out"] = cps(o)
+                e2["out2"] = e2["out"]
+                e2["outcome"] = "ok"
+            except Exception as ex:
+                e2["outcome"] = exc_name(ex)
+            out.append(e2)
     return out
 
 
-SLOTS = [("pid_23", None, None), ("pid_5", "xpn_2", None), ("pid_3", "cx_4", "hd_2"), ("pid_6", "xpn_3", None)]
+SLOTS = [("pid_23", None, None), ("pid_5", "xpn_2", None), ("pid_3", "cx_4", "hd_2"), ("pid_6", "xpn_3", None),
+         ("pid_1", None, "raw")]      # PID-1 is SI: text that is no number is kept as text (TOLERANT) and must be escaped as such
 
 
 def _seg_chunk(args):
@@ -100,17 +115,28 @@ def _seg_chunk(args):
         txt = render(roles, ecs)
         slot = SLOTS[n % len(SLOTS)]
         e = {"k": "inseg", "v": v, "fam": fam, "ec": ec_list(ecs, fam, trunc), "in": cps(txt), "slot": list(slot),
-             "seg": [], "inert": [], "reparsed": [], "roles": "".join(r[-1] for r in roles)}
+             "seg": [], "inert": [], "reparsed": [], "roles": "".join(r[-1] for r in roles), "orig": []}
         try:
             texts = []
             for val in (txt, "q" * max(1, len(txt))):
                 seg = Segment("PID", version=v)
                 seg.pid_1 = "1"
-                x = getattr(seg, slot[0])
-                for a in slot[1:]:
-                    if a:
-                        x = getattr(x, a)
-                x.value = L.ST(val)
+                if slot[2] == "raw":
+                    # text that is no number, already escaped by the version's ST, arrives by PARSING: it is kept as
+                    # text (TOLERANT) and must re-encode to exactly what came in
+                    F = ecd["FIELD"]
+                    t0 = "PID" + F + "n" + L.ST(val).to_er7(ecd) + F * 23 + "z"
+                    seg = parse_segment(t0, version=v, encoding_chars=ecd)
+                    if val is txt:
+                        e["orig"] = cps(t0)
+                    texts.append(seg.to_er7(ecd))
+                    continue
+                else:
+                    x = getattr(seg, slot[0])
+                    for a in slot[1:]:
+                        if a:
+                            x = getattr(x, a)
+                    x.value = L.ST(val)
                 seg.pid_24 = "z"
                 texts.append(seg.to_er7(ecd))
             e["seg"] = cps(texts[0])
@@ -130,7 +156,7 @@ def enumerate_roles(maxlen, alphabet):
 
 
 def signature(e, clause):
-    sig = {"clause": clause, "k": e["k"], "fam": e["fam"], "roles": e["roles"], "outcome": e["outcome"]}
+    sig = {"clause": clause, "k": e["k"], "fam": e["fam"], "roles": e["roles"], "outcome": e["outcome"], "highlighted": bool(e.get("hl"))}
     if e["k"] == "leaf":
         sig["cls"] = e["cls"]
     return sig
@@ -164,6 +190,14 @@ def run(ctx):
     classes = distinct_classes()
     full = list(enumerate_roles(4 if quick else 5, ROLES if not quick else [r for r in ROLES if r not in ("lL",)]))
     longer = [[rnd.choice(ROLES) for _ in range(rnd.randint(5, 14))] for _ in range(2000 if quick else 60000)]
+    # the multi-character sequences, alone and embedded: \X00\ \X0000\ \X000000\ (hexadecimal data, one to three bytes),
+    # \Z00\ is not expressible with the roles; highlighting \H\..\N\ is
+    SEQS = [["E", "X", "0", "0", "E"], ["E", "X", "0", "0", "0", "0", "E"], ["E", "X", "0", "0", "0", "0", "0", "0", "E"],
+            ["E", "lH", "E", "q", "E", "lS", "E"], ["E", "X", "0", "E"], ["E", "X", "0", "0", "0", "E"]]
+    explicit = []
+    for sq in SEQS:
+        explicit += [sq, ["q"] + sq, sq + ["q"], ["F"] + sq + ["C"], sq + sq, ["E"] + sq, sq + ["E"]]
+    longer = explicit + longer
     ecsets = EC_SETS[:3] if quick else EC_SETS
     jobs = []
     for key, (v, name, fam) in sorted(classes.items()):
